@@ -88,7 +88,7 @@ def run(ctx):
             return "different root content"
         if r[0] * (1 - R9) <= 1 <= r[1] * (1 + R9):
             return "equal"
-        return f"size ratio {float(r[0]):.12g}"
+        return f"size ratio {core.sf(r[0]):.12g}"
 
     def classify_failure(u, s, parsed_to=None):
         return classify_unit_str(m, u, parsed_to)
@@ -147,7 +147,7 @@ def run(ctx):
         ctx.count("products")
         s = roundtrip_unit(u, model.show(term))
         # quantity round trip
-        mag = rng.choice([rng.randint(-1000, 1000), float(round(rng.uniform(-1e4, 1e4), 3)), 5, 0.25, 1e-7, 12345678901234567890])
+        mag = rng.choice([rng.randint(-1000, 1000), core.sf(round(rng.uniform(-1e4, 1e4), 3)), 5, 0.25, 1e-7, 12345678901234567890])
         q = Q(mag, u)
         ctx.count("quantities")
         try:
